@@ -18,6 +18,7 @@ import (
 	"bytes"
 	"fmt"
 	"math/rand"
+	"os"
 	"runtime"
 	"strconv"
 	"sync"
@@ -104,6 +105,8 @@ type vSched struct {
 	onSpawn   func(kind string) string
 	emit      func(e, k string, n, m int, err string)
 }
+
+var vDebug = os.Getenv("VERIF_DEBUG") != ""
 
 var vCur *vSched // the scheduler the hook talks to
 
@@ -393,6 +396,13 @@ func (s *vSched) Run() {
 		}
 		c := s.choose(cs, steps)
 		s.taken = append(s.taken, c.name)
+		if vDebug {
+			if c.actor != nil {
+				fmt.Printf("step %d: %s at gate %d a=%d b=%d\n", steps, c.name, c.actor.gate.pt, c.actor.gate.a, c.actor.gate.b)
+			} else {
+				fmt.Printf("step %d: env %s\n", steps, c.name)
+			}
+		}
 		if c.env != nil {
 			c.env.left--
 			c.env.do()
